@@ -187,6 +187,71 @@ def run_labels(arg):
     return jobno, res, r.rc, r.timed_out, asan_sites(r.out), r.out[-600:]
 
 
+# ---------------------------------------------------------------- token lengths around the reader's buffer sizes
+TOKLEN_DRIVER = r"""
+(import (scheme base) (scheme write) (scheme char) (prefix (scheme read) lib:) (only (chibi) read))
+(define (rd-native s) (read (open-input-string s)))
+(define (rd-lib s) (lib:read (open-input-string s)))
+(define escapes '(("\\x3bb;" . #x3bb) ("\\x20ac;" . #x20ac) ("\\x1f600;" . #x1f600) ("\\x41;" . #x41) ("\\n" . 10) ("\\\\" . 92)
+                  ("\\\"" . 34) ("\\t" . 9)))
+(define raws (list (cons (string (integer->char #xe9)) #xe9) (cons (string (integer->char #x20ac)) #x20ac)
+                   (cons (string (integer->char #x1f600)) #x1f600) (cons "z" 122)))
+(define (report kind len who ok detail)
+  (display "#T ") (display kind) (display " ") (display len) (display " ") (display who) (display " ")
+  (display (if ok "ok" "BAD")) (if (not ok) (begin (display " ") (write detail))) (newline))
+(define (try thunk) (guard (e (#t (list 'error (if (error-object? e) (error-object-message e) e)))) (thunk)))
+(define (check-string kind len who rd text want-len want-last)
+  (let ((x (try (lambda () (rd text)))))
+    (report kind len who
+            (and (string? x) (= (string-length x) want-len) (= (char->integer (string-ref x (- want-len 1))) want-last)
+                 (char=? (string-ref x 0) #\a))
+            (if (string? x) (list (string-length x) want-len) x))))
+(define (check-symbol kind len who rd text want-len want-last)
+  (let ((x (try (lambda () (rd text)))))
+    (report kind len who
+            (and (symbol? x) (let ((s (symbol->string x))) (and (= (string-length s) want-len) (= (char->integer (string-ref s (- want-len 1))) want-last))))
+            (if (symbol? x) (string-length (symbol->string x)) x))))
+(define (run-len n)
+  (let ((body (make-string n #\a)))
+    (for-each
+     (lambda (who rd)
+       (for-each (lambda (e)
+                   (check-string "str-esc" n who rd (string-append "\"" body (car e) "\"") (+ n 1) (cdr e))
+                   (check-string "str-esc-mid" n who rd (string-append "\"" body (car e) "aa\"") (+ n 3) 97)
+                   (if (not (member (car e) '("\\\"")))
+                       (check-symbol "bar-esc" n who rd (string-append "|" body (car e) "|") (+ n 1) (cdr e))))
+                 escapes)
+       (for-each (lambda (r)
+                   (check-string "str-raw" n who rd (string-append "\"" body (car r) "\"") (+ n 1) (cdr r))
+                   (check-symbol "sym-raw" n who rd (string-append body (car r)) (+ n 1) (cdr r)))
+                 raws)
+       (let ((x (try (lambda () (rd (make-string n #\9))))))
+         (report "int" n who (and (exact-integer? x) (= x (- (expt 10 n) 1))) (if (number? x) 'wrong-number x)))
+       (let ((x (try (lambda () (rd (string-append "0." (make-string n #\3)))))))
+         (report "dec" n who (and (real? x) (< 0.29 x 0.34)) x))
+       (let ((x (try (lambda () (rd (string-append "#\\x" (make-string n #\0) "41"))))))
+         (report "char-hex" n who (or (eqv? x #\A) (and (pair? x) (eq? (car x) 'error))) x))
+       (let ((x (try (lambda () (rd (string-append "#u8(" (apply string-append (map (lambda (i) "7 ") (make-list n 0))) ")"))))))
+         (report "u8" n who (and (bytevector? x) (= (bytevector-length x) n)) (if (bytevector? x) (bytevector-length x) x))))
+     '("native" "library") (list rd-native rd-lib))))
+"""
+TOKLENS_QUICK = sorted(set([1, 2, 3, 7, 30, 31, 32, 33] + [2 ** k + d for k in (6, 7, 8, 9, 10) for d in (-6, -5, -4, -3, -2, -1, 0, 1, 2)] + [1190, 1195, 1198, 1199, 1200, 1201, 1205]))
+TOKLENS_THOROUGH = sorted(set(TOKLENS_QUICK + list(range(100, 140)) + list(range(240, 270)) + list(range(500, 520)) + list(range(1015, 1035))
+                              + [2 ** k + d for k in (11, 12, 13, 14, 16) for d in (-4, -3, -2, -1, 0, 1, 2)] + list(range(1180, 1215))))
+
+
+def run_toklen(arg):
+    jobno, lens = arg
+    d = common.scratch_dir("c01t")
+    p = os.path.join(d, "job.scm")
+    common.write_file(p, TOKLEN_DRIVER + "".join("(run-len %d)\n" % n for n in lens))
+    r = common.evalbatch("asan", [p], heap="64M/512M", env=ENV, timeout=900, cwd=d)
+    lines = re.findall(r"^#T (\S+) (\d+) (\S+) (ok|BAD)(.*)$", r.out, re.M)
+    import shutil
+    shutil.rmtree(d, ignore_errors=True)
+    return jobno, lens, lines, r.rc, r.timed_out, asan_sites(r.out), r.out[-600:]
+
+
 # ---------------------------------------------------------------- nesting depth
 NEST_DRIVER = r"""
 (import (scheme base) (scheme write) (scheme read) (scheme eval))
@@ -366,6 +431,30 @@ def main(tier):
                                       "%s read of %s: %s" % ("native" if rd == "N" else "(scheme read)", label_text(one), why),
                                       LABEL_DRIVER + '(run 0 "%s")\n' % label_text(one))
     chk.cov["label_texts"] = nlab
+    # ---- (2c) token lengths around the reader's buffer sizes: strings / |symbols| ending in every kind of escape or a multi-byte
+    #      character, plain symbols, integers, decimals, #\\x characters, bytevectors, for every length of a lattice, both readers
+    lens = TOKLENS_QUICK if quick else TOKLENS_THOROUGH
+    per = max(1, len(lens) // (common.NCPU * 2))
+    tjobs = [(j, lens[lo:lo + per]) for j, lo in enumerate(range(0, len(lens), per))]
+    ntok = 0
+    with Pool(common.NCPU) as pool:
+        for jobno, ls, lines, rc, timed_out, sites, tail in pool.imap_unordered(run_toklen, tjobs):
+            if rc != 0 or timed_out:
+                chk.violation({"op": "toklen-crash", "lengths": ls, "rc": rc, "hang": timed_out}, "token length batch %s %s: %s" % (
+                    ls[:3], "hung" if timed_out else "died rc=%s" % rc, tail[-300:]), TOKLEN_DRIVER + "".join("(run-len %d)\n" % n for n in ls))
+            for kind, fn, loc in sorted(set(sites)):
+                chk.violation({"op": "asan-reader:" + fn, "kind": kind, "site": loc, "spec": "token-length", "lengths": ls[:6]},
+                              "AddressSanitizer %s in %s (%s) while reading tokens of lengths %s.." % (kind, fn, loc, ls[:6]),
+                              TOKLEN_DRIVER + "".join("(run-len %d)\n" % n for n in ls))
+            for kind, n, who, verdict, detail in lines:
+                ntok += 1
+                chk.count(1, outcome="token-" + verdict.lower(), key=("tok", kind, n, who))
+                if verdict != "ok":
+                    chk.violation({"op": "reader-token:" + kind, "length": int(n), "reader": who, "detail": detail.strip()[:200]},
+                                  "%s reader, %s token of length %s: wrong datum %s" % (who, kind, n, detail.strip()[:200]),
+                                  TOKLEN_DRIVER + "(run-len %s)\n" % n)
+    chk.cov["token_length_cases"] = ntok
+    chk.sample("\"" + "a" * 6 + "...(125 a's)\\x3bb;\" : a string literal whose final escape straddles the reader's 128-byte buffer")
     chk.sample("(#10=s0 #23=s1 #100#) : three label tokens over the lattice %s" % LABELS)
     chk.sample("text bytes 28 c3 22 5c : '(' 0xC3 '\"' '\\\\' fed to read, (scheme read), string->number, eval")
     # ---- (3)
